@@ -418,7 +418,8 @@ def check(fx, rep, tier):
     n_stage = 0
     for b in fx.fn_bodies():
         out = fx.fns.get(b["def"], {}).get("output", "")
-        if "layout::StorageLayout" not in out or "Result" not in out:
+        staged = (b.get("impl_self") or "").startswith("extractor::Extractor<") and "Result" in out
+        if ("layout::StorageLayout" not in out or "Result" not in out) and not staged:
             continue
         rep.fn(b["def"])
         root = b["hir"]["value"]
@@ -429,7 +430,7 @@ def check(fx, rep, tier):
             locs = cg.resolve_local(n)
             if not locs:
                 continue
-            if any(a.get("k") == "Closure" for a, _ in ps):
+            if any(a.get("k") == "Closure" for a, _ in ps) and not staged:
                 continue
             n_stage += 1
             under_try = False
@@ -450,8 +451,11 @@ def check(fx, rep, tier):
                     for a in anc["arms"]:
                         pv = F.pat_variants(a["pat"])
                         if pv and any(v == "Err" for _, v in pv):
-                            if any(m.get("k") == "Ret" or (m.get("k") == "Call" and (F.path_def(m["f"]) or "").endswith("::Err")) for m, _ in F.walk(a["body"])):
+                            # the Err arm leaves with an error on EVERY path (a conditional return lets a stopped stage fall through)
+                            leaves = [F.strip(x) for x in T.result_leaves(a["body"])]
+                            if T.diverges(a["body"]) or (leaves and all(x.get("k") == "Call" and (F.path_def(x["f"]) or "").endswith("::Err") for x in leaves)):
                                 matched = True
+            matched = matched or T.explicit_err_exit(ps)
             rep.oblige(
                 under_try or is_tail or matched,
                 "R13.3",
